@@ -694,7 +694,7 @@ Corollary roundtrip_ok :
     valid_sm sm -> Forall (fun o => 0 < snd o) ops -> read_len ops = len seq ->
     1 <= start -> start + ref_len ops <= len refseq + 1 ->
     cigar_to_features true refseq seq (writer_quals seq quals) ops start <> None ->
-    exists s, roundtrip sm refseq seq quals ops start = Some (simplify (norm_ops ops), s)
+    exists s, roundtrip sm refseq seq quals ops start = ROk (simplify (norm_ops ops)) s
               /\ eq_nocase_list s seq = true.
 Proof.
   intros sm refseq seq quals ops start Hsm Hpos Hrl Hstart Href Hc. unfold roundtrip.
@@ -708,8 +708,23 @@ Proof.
   - rewrite Hs, Hcg. exists s. split; [reflexivity | assumption].
 Qed.
 
-(* A mapped read without quality scores: the single-base match branch indexes
-   quality_scores[read_position] unconditionally, which panics. *)
+(* The writer rejects (Err(InvalidInput) = None) exactly when cigar_to_features does *)
+Lemma roundtrip_invalid_input :
+  forall sm refseq seq quals ops start,
+    roundtrip sm refseq seq quals ops start = RInvalidInput <->
+    cigar_to_features true refseq seq (writer_quals seq quals) ops start = None.
+Proof.
+  intros sm refseq seq quals ops start. unfold roundtrip.
+  destruct (cigar_to_features true refseq seq (writer_quals seq quals) ops start) as [ws|] eqn:Hw.
+  - split; [|discriminate].
+    destruct (encode_features sm ws); [|discriminate].
+    destruct (len seq =? 0); [discriminate|].
+    destruct (rebuild_seq refseq sm _ start 1 (len seq)); discriminate.
+  - split; reflexivity.
+Qed.
+
+(* A read-consuming lookup with an empty quality vector: the single-base match branch looks
+   quality_scores[read_position] up unconditionally, which is an InvalidInput error (None). *)
 Lemma missing_qualities_panic :
   forall qa refseq seq k rest rp dp, (k = KM \/ k = KEq \/ k = KX) ->
     c2f qa refseq seq [] ((k, 1) :: rest) rp dp = None.
